@@ -28,7 +28,7 @@ OPS = ['modify'] * 5 + ['link'] * 6 + ['unlink'] * 2 + ['add'] * 2 + ['savepoint
 
 
 def shards(tier, seed):
-    return split(tier, seed, 3200, 32000, 40, 900)
+    return split(tier, seed, 12000, 400000, 40, 900)
 
 
 def run_case(sh, s, d, case):
